@@ -63,6 +63,8 @@ fn instantiate_root<'tcx>(
                             ty::Slice(e) if *e == tcx.types.u8 => {
                                 choice = Some(Ty::new_slice(tcx, tcx.types.u8))
                             }
+                            // AsRef<LocalType>: every validated type implements AsRef<Self>
+                            ty::Adt(def, _) if def.did().is_local() => choice = Some(a),
                             _ => {}
                         }
                     } else if tname.ends_with("Hasher") {
